@@ -679,16 +679,47 @@ def run_installed(case):
                     except Exception:
                         pass
                 elif what == "packed-refs":
+                    import re
+                    first = None
                     try:
                         got = r.refs.as_dict()
+                        first = ("value", dict(got))
                         for n_, v in got.items():
                             if len(v) != 40 or any(c not in b"0123456789abcdef" for c in v):
                                 viol.append({"sig": "C04/%s/ref-value-is-not-an-object-id" % tag, "mut": mut, "value": repr(v)[:60]})
                                 break
                     except (MemoryError, RecursionError) as e:
                         viol.append({"sig": "C04/%s/resource:%s" % (tag, type(e).__name__), "mut": mut})
-                    except Exception:
-                        pass
+                    except Exception as e:
+                        first = ("raised", type(e).__name__)
+                    # the same handle asked again: a file that was refused must not be served from a half-filled cache afterwards
+                    if first is not None:
+                        try:
+                            second = ("value", dict(r.refs.as_dict()))
+                        except (MemoryError, RecursionError):
+                            raise
+                        except Exception as e:
+                            second = ("raised", type(e).__name__)
+                        stats["packed_refs_asked_twice"] = stats.get("packed_refs_asked_twice", 0) + 1
+                        if first[0] == "raised" and second[0] == "value":
+                            viol.append({"sig": "C04/%s/second-read-on-the-same-handle-serves-data-after-the-first-was-refused" % tag, "mut": mut,
+                                         "n_refs": len(second[1])})
+                        elif first[0] == "value" and second[0] == "value" and first[1] != second[1]:
+                            viol.append({"sig": "C04/%s/two-reads-on-the-same-handle-differ" % tag, "mut": mut})
+                        if first[0] == "raised":
+                            wellformed = set(re.findall(rb"(?m)^[0-9a-f]{40} refs/[^\n]+$", data))
+                            try:
+                                r.refs.add_packed_refs({b"refs/heads/added-after-damage": _st["inst_ids"][0]})
+                                updated = True
+                            except (MemoryError, RecursionError):
+                                raise
+                            except Exception:
+                                updated = False
+                            if updated:
+                                now_ = open(target, "rb").read()
+                                lost = [l for l in wellformed if l not in now_]
+                                if lost:
+                                    viol.append({"sig": "C04/%s/update-after-refused-read-rewrote-the-file-from-a-partial-view" % tag, "mut": mut, "lost_lines": len(lost)})
                 elif what == "commit-graph":
                     try:
                         from dulwich.graph import find_merge_base
@@ -721,8 +752,116 @@ def run_installed(case):
             "nontrivial": ["inst:%s:%s%s" % (what, m[0], m[1] if len(m) > 1 else "") for m in case["mutations"][:300]]}
 
 
+def run_iofault(case):
+    """fault_sequences: a *valid* pack is ingested while the k-th mutating file-system call fails (ENOSPC / EIO), for every k: the call
+    raises an ordinary error and the store is observably unchanged (same objects through a fresh Repo, no new pack-* files), or the fault
+    was absorbed and everything ingested hashes to its name."""
+    import errno
+    import gc
+    from vt.mon import fsint
+    if "seeds" not in _st:
+        worker_init()
+    rng = random.Random(case["seed"])
+    seed = _st["seeds"][case["seedname"]]
+    path = case["path"]
+    viol, stats = [], {}
+    base_ids = _st.get("base_dul_view") or dul_view(_st["base"])
+    _st["base_dul_view"] = base_ids
+    FOPS = {"write", "flush", "fsync", "chmod", "rename", "replace", "creat", "open-w", "close-w", "remove", "truncate", "mkdir", "utime", "link"}
+
+    def one(fault_at, kind):
+        d = fresh_store()
+        layer = fsint.Layer(d)
+        count = [0]
+
+        def hook(ev):
+            if ev["op"] in FOPS:
+                count[0] += 1
+                if fault_at is not None and count[0] == fault_at:
+                    ev["injected"] = kind
+                    raise OSError(errno.ENOSPC if kind == "ENOSPC" else errno.EIO, "injected " + kind)
+        layer.hook = hook
+        fsint.install(layer)
+        layer.register_actor("main")
+        out = "ok"
+        try:
+            try:
+                ingest(path, d, seed, random.Random(1))
+            except (MemoryError, RecursionError) as e:
+                out = "resource:" + type(e).__name__
+            except Exception as e:
+                out = "raised:" + type(e).__name__
+            except BaseException as e:
+                out = "base:" + type(e).__name__
+        finally:
+            layer.unregister_actor()
+            fsint.uninstall()
+        gc.collect()
+        inj = [e for e in layer.log if e.get("injected")]
+        return d, out, count[0], (inj[0]["op"], os.path.basename(inj[0]["path"] or "")[:12]) if inj else None
+    d0, out0, n, _ = one(None, None)
+    shutil.rmtree(d0, ignore_errors=True)
+    if out0 != "ok":
+        return {"viol": [{"sig": "C04/iofault/%s/HARNESS-valid-seed-not-ingested-%s" % (path, out0)}], "stats": {}, "evaluations": 1, "nontrivial": []}
+    stats["iofault_points"] = n
+    for k in range(1, n + 1):
+        for kind in ("ENOSPC", "EIO"):
+            d, out, _n, where = one(k, kind)
+            stats["cases"] = stats.get("cases", 0) + 1
+            stats["iofault_injections"] = stats.get("iofault_injections", 0) + 1
+            wtag = "%s@%s" % (kind, ("%s:%s" % (where[0], "idx" if ".idx" in where[1] or "idx" in where[1] else "pack" if "pack" in where[1] else "other")) if where else "none")
+            tag = "iofault/%s/%s/%s" % (path, case["seedname"], wtag)
+            if out.startswith(("resource", "base")):
+                viol.append({"sig": "C04/%s/%s" % (tag, out), "k": k})
+            try:
+                view = dul_view(d)
+            except Exception as e:
+                viol.append({"sig": "C04/%s/store-unusable-after-failed-ingestion-%s" % (tag, type(e).__name__), "k": k, "outcome": out, "msg": str(e)[:120]})
+                view = None
+            if view is not None:
+                new = view - base_ids
+                if base_ids - view:
+                    viol.append({"sig": "C04/%s/pre-existing-objects-vanished" % tag, "k": k})
+                if out != "ok" and new:
+                    viol.append({"sig": "C04/%s/failed-ingestion-left-objects-visible" % tag, "k": k, "n_new": len(new), "outcome": out})
+                if new:
+                    from dulwich.repo import Repo
+                    r = Repo(d)
+                    try:
+                        for i in new:
+                            try:
+                                o = r.object_store[i]
+                                if oid(o.type_name, o.as_raw_string()) != i:
+                                    viol.append({"sig": "C04/%s/visible-object-does-not-hash-to-its-name" % tag, "k": k})
+                                    break
+                            except Exception as e:
+                                viol.append({"sig": "C04/%s/visible-object-unreadable-%s" % (tag, type(e).__name__), "k": k, "outcome": out})
+                                break
+                    finally:
+                        r.close()
+                if out != "ok":
+                    pd = os.path.join(d, ".git", "objects", "pack")
+                    packs = sorted(f for f in os.listdir(pd) if f.startswith("pack-") and f.endswith((".pack", ".idx")))
+                    basep = set(p for p in _st["base_objects"]["packfiles"] if p.endswith((".pack", ".idx")))
+                    newf = [f for f in packs if f not in basep]
+                    stems = set(f.rsplit(".", 1)[0] for f in newf)
+                    pairs = [st_ for st_ in stems if st_ + ".pack" in packs and st_ + ".idx" in packs]
+                    if pairs:
+                        # a pack is in use only when data file and index exist under one name
+                        viol.append({"sig": "C04/%s/failed-ingestion-left-a-pack-with-its-index-installed" % tag, "k": k, "packs": newf[:6]})
+                    elif newf:
+                        stats["orphan_pack_or_idx_left_by_failed_ingestion"] = stats.get("orphan_pack_or_idx_left_by_failed_ingestion", 0) + 1
+            shutil.rmtree(d, ignore_errors=True)
+    seen, outv = set(), []
+    for v in viol:
+        if v["sig"] not in seen:
+            seen.add(v["sig"])
+            outv.append(v)
+    return {"viol": outv, "stats": stats, "evaluations": stats.get("cases", 0), "nontrivial": ["iofault:%s:%s:%d" % (path, case["seedname"], k) for k in range(n)]}
+
+
 def run_case(case):
-    return {"pack": run_pack, "grammar": run_grammar, "installed": run_installed}[case["kind"]](case)
+    return {"pack": run_pack, "grammar": run_grammar, "installed": run_installed, "iofault": run_iofault}[case["kind"]](case)
 
 
 SEED_LEN_GUESS = {"git-full": 2200, "git-ofs": 1500, "git-ref": 1500, "git-thin": 1200, "dulwich-deltified": 1600}
@@ -843,6 +982,11 @@ def main(ctx):
             muts = [["xor", rng.randrange(n), rng.choice([1, 0x80])] for _ in range(ctx.budget(150, 1500))] + [["trunc", rng.randrange(n)] for _ in range(30)]
             for i in range(0, len(muts), 60):
                 cases.append({"kind": "pack", "seed": "%d/s/%s/%s/%d" % (ctx.seed, sn, path, i), "seedname": sn, "path": path, "mutations": muts[i:i + 60]})
+    for sn in ("git-ofs", "git-thin", "git-ref") if not ctx.thorough else list(probe):
+        for path in ("add_thin_pack", "add_pack+commit", "receive-pack"):
+            if path == "add_pack+commit" and sn == "git-thin":
+                continue
+            cases.append({"kind": "iofault", "seed": "%d/io/%s/%s" % (ctx.seed, sn, path), "seedname": sn, "path": path})
     inst_len = {"loose": 60, "idx": 1400, "index": 500, "packed-refs": 250, "commit-graph": 1500, "midx": 1600}
     for what, n in inst_len.items():
         muts = []
@@ -856,7 +1000,8 @@ def main(ctx):
             cases.append({"kind": "installed", "seed": "%d/i/%s/%d" % (ctx.seed, what, i), "what": what, "mutations": muts[i:i + 150]})
     ctx.rule = ("pack seeds %s x ingestion paths %s: every byte position x %d patterns, every %s truncation length, tails and splices (exhaustive "
                 "per seed, positions beyond the seed length are skipped); %d grammar-aware hostile packs x 5 paths; damaged installed files "
-                "(loose object, idx, index, packed-refs, commit-graph, multi-pack-index): every %s byte x 2 patterns + truncations. non-trivial = "
+                "(loose object, idx, index, packed-refs, commit-graph, multi-pack-index): every %s byte x 2 patterns + truncations; I/O faults: a valid "
+                "pack ingested while the k-th mutating file-system call fails with ENOSPC/EIO, every k, 3 paths. non-trivial = "
                 "distinct (path, seed, mutation)." % (seeds_q, paths_q, len(patterns), "" if ctx.thorough else "3rd", len(GRAMMAR),
                                                       "" if ctx.thorough else "2nd"))
     ctx.assumptions = ["'ordinary error' = any Exception subclass; MemoryError/RecursionError, BaseExceptions, signals, CPU blow-ups and hangs are violations",
